@@ -2,7 +2,10 @@
  * SYMBOLIC buffer capacity (0..length+2): exactly the first min(cap,len) bytes of the reference text are stored, no byte
  * outside the buffer is written (guard bytes), the terminating NUL is stored iff len < cap, count == measure == len... */
 #include "vh.h"
-#include "doc.h"
+#ifndef UNIT_H
+#define UNIT_H "doc.h"
+#endif
+#include UNIT_H
 #define G 0xA5
 /* S_Ser: f0 n, f1 measure, f2 npretty, f3 mpretty */
 /* small integers only (-255..255): digit printing itself is decided for all values by the writeInteger obligations */
